@@ -45,6 +45,23 @@ def handleC14 : List String → String
     | "qualified-private" => verdict ⟨.module, ["m"], false, 0⟩ []
     | "qualified-public" => verdict ⟨.module, ["m"], false, 0⟩ []
     | _ => "unmodelled")
+  | ["vis", decls, form, item] =>
+    -- decls: kind:name:pub:variants(+)  separated by ';'
+    let parseKind : String → Option DKind
+      | "const" => some .const | "model" => some .model | "class" => some .class_ | "enum" => some .enum_
+      | "newtype" => some .newtype | "trait" => some .trait | "fn" => some .function | _ => none
+    let ds := (decls.splitOn ";").foldr (fun t acc => match acc, t.splitOn ":" with
+      | some l, [k, n, p, vs] => (match parseKind k with
+        | some kind => some (⟨kind, n, p == "1", if vs == "-" then [] else vs.splitOn "+"⟩ :: l)
+        | none => none)
+      | _, _ => none) (some [])
+    (match ds with
+    | some ds =>
+      let deps := [moduleExports "m" ds]
+      let rej := if form == "from" then rejectedNames deps ⟨.from_, ["m"], false, 0⟩ [item]
+                 else rejectedNames deps ⟨.module, ["m", item], false, 0⟩ []
+      if rej.isEmpty then "accept" else "reject"
+    | none => "bad-op")
   | _ => "bad-op"
 
 end Incan.Driver
